@@ -65,13 +65,19 @@ fn battery(t: Timestamp, via: &str, obs: &mut Obs) -> CheckResult {
     Err(p) => return obs.fail("format-panics", format!("{via}: to_rfc3339 panicked for unix {unix}: {}", p.msg)),
   };
   if (MIN_UNIX..=MAX_UNIX).contains(&unix) {
+    // what was formatted is the value: an RFC 3339 string that denotes this very second in UTC, without a fraction
+    // (which spelling of the zero offset and of the `T`/`Z` letters is used is not part of the statement)
     let want = format_unix(unix);
+    let denotes = parse_rfc3339(&text);
     vensure!(
       obs,
-      text == want,
+      denotes
+        .as_ref()
+        .is_some_and(|r| r.unix == unix && !r.has_fraction && !r.nonzero_offset && !r.leap),
       "non-canonical-format",
-      "{via}: to_rfc3339 gave {text:?}, canonical whole-second UTC form of {unix} is {want:?}"
+      "{via}: to_rfc3339 gave {text:?}, which is not a whole-second UTC spelling of {unix} (such as {want:?})"
     );
+    obs.label(if text == want { "format:canonical-text" } else { "format:other-utc-spelling" });
   }
   match catch(|| Timestamp::parse(&text)) {
     Ok(Ok(t2)) => vensure!(
@@ -91,12 +97,6 @@ fn battery(t: Timestamp, via: &str, obs: &mut Obs) -> CheckResult {
   }
   match catch(|| t.to_json()) {
     Ok(Ok(j)) => {
-      vensure!(
-        obs,
-        j == format!("\"{text}\""),
-        "json-roundtrip",
-        "{via}: JSON form {j} is not the string {text:?}"
-      );
       match catch(|| Timestamp::from_json(&j)) {
         Ok(Ok(t2)) => vensure!(obs, t2 == t, "json-roundtrip", "{via}: from_json(to_json()) differs for {j}"),
         Ok(Err(e)) => vfail!(obs, "json-roundtrip", "{via}: own JSON {j} is rejected: {e}"),
@@ -108,13 +108,8 @@ fn battery(t: Timestamp, via: &str, obs: &mut Obs) -> CheckResult {
   }
   match catch(|| (format!("{t}"), format!("{t:?}"), String::from(t))) {
     Ok((d, _dbg, s)) => {
-      // Display and String::from are string forms of the value; the Debug text is not specified (it only must not panic).
-      vensure!(
-        obs,
-        d == text && s == text,
-        "display-differs",
-        "{via}: Display {d:?} / String {s:?} differ from {text:?}"
-      );
+      // Display, Debug and String::from only have to succeed: their text is not part of the statement.
+      obs.label(if d == text && s == text { "display-is-rfc3339-text" } else { "display-is-other-text" });
     }
     Err(p) => vfail!(obs, "format-panics", "{via}: Display/Debug/String::from panicked: {}", p.msg),
   }
@@ -617,9 +612,8 @@ pub fn run(ctx: &mut Ctx) {
   ctx.require_class("instants:accepted", 1000);
   ctx.require_class("arith:arith-leaves-range", 10);
   ctx.require_class("leap-grid:accepted-leap-second", 5);
-  for class in ["whole", "negative", "fraction", "negative-fraction"] {
-    ctx.require_class(&format!("arith-json:json-duration:{class}"), 100);
-  }
+  // (negative and sub-second durations exist only as long as the JSON form admits them: counted, not required)
+  ctx.require_class("arith-json:json-duration:whole", 100);
 }
 
 pub fn replay(v: &serde_json::Value, obs: &mut Obs) -> Result<CheckResult, String> {
